@@ -778,11 +778,241 @@ def rule_H(ctx):
     ctx.extra['C01.H transitions'] = n_tr
 
 
+def rule_J(ctx):
+    """C01.J operator objects and expressions applied to numeric tracks from every column order of three features: the operation writes
+    its output column only (fresh name / existing name / in place give the same values), lists the names it should, leaves no temporary,
+    keeps one value per feature and observation, and touches no other feature, coordinate or timestamp"""
+    import itertools
+    import math
+    from .. import absint, orders, npstub
+    fo = ctx.prog.func(TRACK + '.operate')
+    fn = absint.funcs(ctx, 'tracklib.core.track', dict(npstub.stubs()))
+    NANV = float('nan')
+    fn['__globals__']['NAN'] = NANV
+
+    def _exit(*a):
+        raise orders.Raised('SystemExit', 'exit()')
+    fn['exit'] = _exit
+    T = absint.classref(ctx, TRACK, fn)
+    Op = absint.operator_table(ctx, fn)
+    N = 4
+
+    class Pos(orders.PyStub):
+        isa = ('ENUCoords',)
+
+        def __init__(self, x, y, z):
+            self.c = [float(x), float(y), float(z)]
+
+        def getX(self):
+            return self.c[0]
+
+        def getY(self):
+            return self.c[1]
+
+        def getZ(self):
+            return self.c[2]
+
+        def setX(self, v):
+            self.c[0] = v
+
+        def setY(self, v):
+            self.c[1] = v
+
+        def setZ(self, v):
+            self.c[2] = v
+
+        def copy(self):
+            return Pos(*self.c)
+
+    class Stamp(orders.PyStub):
+        isa = ('ObsTime',)
+
+        def __init__(self, t):
+            self.t = float(t)
+
+        def toAbsTime(self):
+            return self.t
+
+        def copy(self):
+            return Stamp(self.t)
+
+    class O(orders.PyStub):
+        isa = ('Obs',)
+
+        def __init__(self, k):
+            self.k = k
+            self.position = Pos(1.0 + k, 10.0 - 2.0 * k, 0.5 * k)
+            self.timestamp = Stamp(100.0 + 3.0 * k)
+            self.features = []
+
+        def copy(self):
+            o = O(self.k)
+            o.position, o.timestamp, o.features = self.position.copy(), self.timestamp.copy(), list(self.features)
+            return o
+    VAL = {'a': [3.0, -1.5, 4.0, 2.0], 'b': [2.0, 2.0, -4.0, 1.0], 'c': [10.0, 20.0, 30.0, 50.0]}
+
+    def mk(order):
+        t = T([O(k) for k in range(N)], 'u', 't')
+        for nm in order:
+            t.call('createAnalyticalFeature', nm, list(VAL[nm]))
+        return t
+
+    def snap(t):
+        names = t.call('getListAnalyticalFeatures')
+        vals = {nm: t.call('getAnalyticalFeature', nm) for nm in names}
+        widths = [len(o.features) for o in t.fields['_Track__POINTS']]
+        frame = [tuple(o.position.c) + (o.timestamp.t,) for o in t.fields['_Track__POINTS']]
+        return names, vals, widths, frame
+
+    def eqv(u, v):
+        if isinstance(u, list) and isinstance(v, list):
+            return len(u) == len(v) and all(eqv(a_, b_) for a_, b_ in zip(u, v))
+        if isinstance(u, float) and u != u:
+            return isinstance(v, float) and v != v
+        if isinstance(u, (int, float)) and isinstance(v, (int, float)):
+            return abs(u - v) <= 1e-12 * max(1.0, abs(u), abs(v))
+        return u == v or u is v
+    found = {}
+    n_ops = 0
+    skipped = []
+    kinds = {}
+    for q_, ci in ctx.prog.classes.items():
+        if q_.startswith('tracklib.core.operators.'):
+            kinds[ci.name] = absint.all_bases(ctx, q_)
+    singles = [(nm, getattr(Op, nm)) for nm in sorted(vars(Op)) if isinstance(getattr(Op, nm), orders.Obj)]
+    orders_ = [('a', 'b', 'c'), ('c', 'b', 'a'), ('b', 'c', 'a')]
+
+    def args_for(nm, obj, out):
+        base = kinds.get(obj.clsname, set())
+        if 'UnaryVoidOperator' in base:
+            return ['a'] + ([out] if out else [])
+        if 'BinaryVoidOperator' in base:
+            return ['a', 'b'] + ([out] if out else [])
+        if 'ScalarVoidOperator' in base:
+            if 'FILTER' in nm:
+                second = [1.0, 2.0, 1.0]
+            elif nm == 'APPLY':
+                second = (lambda x: 2.0 * x + 1.0)
+            elif 'SHIFT' in nm:
+                second = 1
+            else:
+                second = 2.0
+            return ['a', second] + ([out] if out else [])
+        if 'UnaryOperator' in base:
+            return ['a']
+        if 'BinaryOperator' in base or 'ScalarOperator' in base:
+            return ['a', 'b' if 'BinaryOperator' in base else 2.0]
+        return None
+    for nm, obj in singles:
+        base = kinds.get(obj.clsname, set())
+        void = bool(base & {'UnaryVoidOperator', 'BinaryVoidOperator', 'ScalarVoidOperator'})
+        results = {}
+        for order in orders_:
+            for out in (('q', 'c', None) if void else (None,)):
+                a_ = args_for(nm, obj, out)
+                if a_ is None:
+                    continue
+                t = mk(order)
+                before = snap(t)
+                label = 'operate(Operator.%s, %s) on features in column order %s' % (nm, ', '.join(repr(x) if not callable(x) else '<function>' for x in a_), '/'.join(order))
+                try:
+                    t.call('operate', obj, *a_)
+                except orders.Unsupported as ex:
+                    skipped.append('%s: %s' % (nm, str(ex)[:60]))
+                    break
+                except (ZeroDivisionError, ValueError, OverflowError):
+                    continue            # the operator rejects these values (log of a negative, ...): nothing to compare
+                except (IndexError, KeyError, TypeError, AttributeError, orders.Raised) as ex:
+                    found.setdefault(('operator', 'fails'), (label, {'exception': '%s: %s' % (type(ex).__name__, str(ex)[:160])}))
+                    continue
+                n_ops += 1
+                after = snap(t)
+                target = (out if out else 'a') if void else None
+                want_names = list(before[0]) + ([target] if target and target not in before[0] else [])
+                if sorted(after[0]) != sorted(want_names):
+                    found.setdefault(('operator', 'names'), (label, {'features listed before': before[0], 'after': after[0], 'expected': want_names,
+                                                                     'why': 'an operator lists its output feature and nothing else (no temporary left, no feature lost)'}))
+                    continue
+                if any(w_ != len(after[0]) for w_ in after[2]):
+                    found.setdefault(('operator', 'width'), (label, {'values carried per observation': after[2], 'features listed': len(after[0])}))
+                    continue
+                for other in before[0]:
+                    if other != target and not eqv(after[1][other], before[1][other]):
+                        found.setdefault(('operator', 'frame'), (label, {'feature changed as a side effect': other, 'before': before[1][other], 'after': after[1][other]}))
+                if after[3] != before[3]:
+                    found.setdefault(('operator', 'positions'), (label, {'why': 'positions / timestamps changed'}))
+                if target:
+                    results[(order, out)] = after[1][target]
+            else:
+                continue
+            break
+        # the output values do not depend on whether the output name is new, already exists, or is the input itself, nor on the column order
+        vals = list(results.items())
+        for (k1, v1), (k2, v2) in zip(vals, vals[1:]):
+            if not eqv(v1, v2):
+                found.setdefault(('operator', 'overwrite:' + nm), ('Operator.%s' % nm, {'output written to': {'q': 'a new name', 'c': 'an existing feature', None: 'the input feature itself'}[k1[1]],
+                                                                                        'values': v1, 'but written to': {'q': 'a new name', 'c': 'an existing feature', None: 'the input feature itself'}[k2[1]],
+                                                                                        'values ': v2, 'column orders': ['/'.join(k1[0]), '/'.join(k2[0])],
+                                                                                        'why': 'reading the output name must return the values the operator just computed, whether or not the name existed before'}))
+                break
+    if n_ops < 150:
+        raise shape_error('only %d operator applications could be interpreted (skipped: %s)' % (n_ops, '; '.join(skipped)[:300]), fo.loc())
+    # expressions
+    exprs = [('q=a+b', 'q', lambda: [x + y for x, y in zip(VAL['a'], VAL['b'])]), ('c=a+b', 'c', lambda: [x + y for x, y in zip(VAL['a'], VAL['b'])]),
+             ('a=a+b', 'a', lambda: [x + y for x, y in zip(VAL['a'], VAL['b'])]), ('q=a', 'q', lambda: list(VAL['a'])), ('c=a', 'c', lambda: list(VAL['a'])),
+             ('b=a*2', 'b', lambda: [2 * x for x in VAL['a']]), ('q=SUM{a}', 'q', lambda: [sum(VAL['a'])] * N), ('a+b', None, None), ('a', None, None),
+             ('a*(b+c)+SUM{a}', None, None), ('q=5', 'q', lambda: [5.0] * N), ('b=5', 'b', lambda: [5.0] * N), ('x=a', 'x', lambda: list(VAL['a'])),
+             ('q=D{a}+I{b}', 'q', None), ('a=b', 'a', lambda: list(VAL['b'])), ('a=a', 'a', lambda: list(VAL['a'])), ('c=c', 'c', lambda: list(VAL['c']))]
+    n_ex = 0
+    for order in orders_ + [('a', 'c', 'b')]:
+        for text, target, want in exprs:
+            t = mk(order)
+            before = snap(t)
+            label = 'operate(%r) on features in column order %s' % (text, '/'.join(order))
+            try:
+                t.call('operate', text)
+            except orders.Unsupported as ex:
+                raise shape_error('operate(%r) not interpretable: %s' % (text, ex), fo.loc())
+            except (IndexError, KeyError, TypeError, AttributeError, ValueError, ZeroDivisionError, orders.Raised) as ex:
+                found.setdefault(('expression', 'fails'), (label, {'exception': '%s: %s' % (type(ex).__name__, str(ex)[:160])}))
+                continue
+            n_ex += 1
+            after = snap(t)
+            want_names = list(before[0]) + ([target] if target and target not in before[0] and target not in ('x', 'y', 'z', 't') else [])
+            if sorted(after[0]) != sorted(want_names):
+                found.setdefault(('expression', 'names'), (label, {'features listed before': before[0], 'after': after[0], 'expected': want_names,
+                                                                   'why': 'an expression lists its left-hand name and nothing else: no temporary stays listed, no feature disappears'}))
+                continue
+            if any(w_ != len(after[0]) for w_ in after[2]):
+                found.setdefault(('expression', 'width'), (label, {'values carried per observation': after[2], 'features listed': len(after[0])}))
+                continue
+            for other in before[0]:
+                if other != target and not eqv(after[1][other], before[1][other]):
+                    found.setdefault(('expression', 'frame'), (label, {'feature changed as a side effect': other, 'before': before[1][other], 'after': after[1][other]}))
+            if target in ('x', 'y', 'z'):
+                i_ = 'xyz'.index(target)
+                if [fr[:i_] + fr[i_ + 1:] for fr in after[3]] != [fr[:i_] + fr[i_ + 1:] for fr in before[3]]:
+                    found.setdefault(('expression', 'positions'), (label, {'why': 'a coordinate other than the target, or a timestamp, changed'}))
+                if want is not None and not eqv([fr[i_] for fr in after[3]], want()):
+                    found.setdefault(('expression', 'stored'), (label, {'coordinate %s after' % target: [fr[i_] for fr in after[3]], 'expected': want()}))
+            else:
+                if after[3] != before[3]:
+                    found.setdefault(('expression', 'positions'), (label, {'why': 'positions / timestamps changed'}))
+                if target and want is not None and not eqv(after[1][target], want()):
+                    found.setdefault(('expression', 'stored'), (label, {'read under %s' % target: after[1][target], 'last written': want()}))
+    for (what, key), (label, wit) in sorted(found.items()):
+        ctx.violation('C01.J', fo, '%s: the feature table stays aligned and nothing but the output changes' % what, dict(wit, operation=label), node=fo.node, key='%s:%s' % (what, key))
+    if not any(w_ == 'operator' for w_, _ in found):
+        ctx.ok('C01.J', fo, '%d applications of %d operator objects (new / existing / in-place output, three column orders): output column only, same values whatever the output name, table aligned' % (n_ops, len(singles) - len(skipped)), node=fo.node)
+    if not any(w_ == 'expression' for w_, _ in found):
+        ctx.ok('C01.J', fo, '%d expression evaluations: left-hand name stored, nothing else changed, no temporary left' % n_ex, node=fo.node)
+    ctx.extra['C01.J operator applications'] = n_ops
+    ctx.extra['C01.J operators not interpretable (skipped)'] = skipped
+
+
 RULES = [
     ('C01.H', rule_H, 'quick'),
-    ('C01.E', rule_E, 'quick'),
-    ('C01.W', rule_W, 'quick'),
+    ('C01.J', rule_J, 'quick'),
     ('C01.F', rule_F, 'quick'),
-    ('C01.T', rule_T, 'quick'),
 ]
-MIN_OBLIGATIONS = 30
+MIN_OBLIGATIONS = 5
